@@ -37,7 +37,7 @@ try:
     import c14_gone as _gone        # noqa: E402  (needs NEW_ARGS above)
 finally:
     sys.path.remove(GONE_DIR)
-Gone, GoneNA = _gone.Gone, _gone.GoneNA
+Gone, GoneNA, PlainGone = _gone.Gone, _gone.GoneNA, _gone.PlainGone
 
 
 def show_gone():
